@@ -9,10 +9,11 @@ for f in $(git diff --name-only --diff-filter=U); do
   case $f in
     evidence/*) git checkout --theirs "$f" 2>/dev/null;;
     known_findings.json|MANIFEST.json|lean/PqModel/Generated/Facts.lean) git checkout --ours "$f";;
+    props/*.json) tools/mergeprops.py "$f" && git add "$f";;
   esac
 done
 tools/gendriver.py >/dev/null
-left=$(git diff --name-only --diff-filter=U | grep -v "Main.lean\|evidence/\|known_findings.json\|MANIFEST.json\|Generated/Facts.lean")
+left=$(git diff --name-only --diff-filter=U | grep -v "Main.lean\|props/\|evidence/\|known_findings.json\|MANIFEST.json\|Generated/Facts.lean")
 if [ -n "$left" ]; then echo "UNRESOLVED: $left"; fi
 git add -A; git commit -q -m "merge $b" 2>/dev/null
 if grep -rl "^<<<<<<< " --include=*.lean --include=*.go --include=*.json --include=*.md --include=*.py . 2>/dev/null | grep -v "\.lake\|\.build" | head -3 | grep -q .; then echo "CONFLICT MARKERS LEFT"; fi
